@@ -45,7 +45,7 @@ func gid() int64 {
 func finish(outcome string) {
 	fmt.Printf("\nVERIF-REPLAY-OUTCOME: %s\n", outcome)
 	os.Stdout.Sync()
-	os.Exit(0)
+	os.Exit(3) // non-zero: "go test" refuses os.Exit(0) inside a test; vcheck only reads the outcome line
 }
 
 func initThreads() {
@@ -108,6 +108,13 @@ func point(t *thread, kind string, onBehalf bool) bool {
 	ev, ok := peekSched()
 	if !ok {
 		return false
+	}
+	if ev.Name == "dispatch" && ev.From == t.id && kind != "dispatch" && !onBehalf {
+		// The engine saw this thread block here (waiting for a goroutine of the
+		// code under test) and ran others meanwhile; natively the wait resolved
+		// by itself. Perform the recorded hand-over now, then look again.
+		point(t, "dispatch", false)
+		return point(t, kind, false)
 	}
 	if ev.Name != kind || ev.From != t.id {
 		finish(fmt.Sprintf("replay-diverged: at %s of thread %d the recorded event is %s of thread %d", kind, t.id, ev.Name, ev.From))
@@ -213,7 +220,13 @@ func Yield() {
 	if n <= 1 {
 		return
 	}
-	point(self(), "yield", false)
+	me := self()
+	if me == nil {
+		// a goroutine started by the code under test: it is not scheduled by the turnstile
+		runtime.Gosched()
+		return
+	}
+	point(me, "yield", false)
 }
 
 // Sync makes a thread that was blocked inside real code wait for its turn
@@ -225,7 +238,9 @@ func Sync() {
 	if n <= 1 {
 		return
 	}
-	ensureBaton(self())
+	if me := self(); me != nil {
+		ensureBaton(me)
+	}
 }
 
 func allDone(except *thread) bool {
